@@ -257,6 +257,10 @@ pub struct TransportManager {
 
     /// Pending accept futures with associated connection information.
     pending_accept: FuturesUnordered<BoxFuture<'static, (PeerId, Endpoint, crate::Result<()>)>>,
+
+    /// Peers for which `ConnectionEstablished` was reported to the user and `ConnectionClosed`
+    /// has not been reported yet, with the latest reported connection.
+    announced_peers: HashMap<PeerId, ConnectionId>,
 }
 
 /// Builder for [`crate::transport::manager::TransportManager`].
@@ -360,6 +364,7 @@ impl TransportManagerBuilder {
             connection_limits: limits::ConnectionLimits::new(self.connection_limits_config),
             opening_errors: HashMap::new(),
             pending_accept: FuturesUnordered::new(),
+            announced_peers: HashMap::new(),
         }
     }
 }
@@ -1129,6 +1134,8 @@ impl TransportManager {
                                 "connection accepted and protocols notified",
                             );
 
+                            self.announced_peers.insert(peer, endpoint.connection_id());
+
                             return Some(TransportEvent::ConnectionEstablished { peer, endpoint });
                         }
                         Err(error) => {
@@ -1136,7 +1143,7 @@ impl TransportManager {
                             // installed protocols about the connection. This can happen when the
                             // node is shutting down or when the user has dropped the long running protocol.
                             // To err on the safe side, roll back the state modification done in `on_connection_established`.
-                            self.on_connection_closed(peer, endpoint.connection_id());
+                            let closed = self.on_connection_closed(peer, endpoint.connection_id());
 
                             tracing::error!(
                                 target: LOG_TARGET,
@@ -1145,6 +1152,17 @@ impl TransportManager {
                                 ?error,
                                 "failed to notify protocols about connection",
                             );
+
+                            // The discarded connection may have been promoted to the primary
+                            // connection while it was being accepted, because the connection the
+                            // user knows about was closed in the meantime. That closure was not
+                            // reported as this connection was still tracked, so it must be
+                            // reported now that no connection is left.
+                            if closed.is_some() {
+                                if let Some(connection_id) = self.announced_peers.remove(&peer) {
+                                    return Some(TransportEvent::ConnectionClosed { peer, connection_id });
+                                }
+                            }
                         }
                     }
                 }
@@ -1163,6 +1181,7 @@ impl TransportManager {
                             peer,
                             connection: connection_id,
                         } => if let Some(event) = self.on_connection_closed(peer, connection_id) {
+                            self.announced_peers.remove(&peer);
                             return Some(event);
                         }
                     };
